@@ -197,6 +197,8 @@ fn fmt_code(v: u64) -> String {
         5 => format!("new(type#{a})"),
         6 => format!("bigtree-history(case#{a})"),
         7 => format!("bigk-history(case#{a})"),
+        8 => format!("longrun-seg(case#{a})"),
+        9 => format!("longrun-k(case#{a})"),
         _ => format!("step#{v:#x}"),
     }
 }
@@ -226,9 +228,66 @@ fn sweep_pairs(a: &Args) -> ! {
     let only = a.get("only").map(|s| s.to_string());
     let place_check = a.flag("o_place");
     let seq = a.flag("sequential");
+    let chained = a.flag("chained");
     let rs = &ranges;
     let acc = parallel(ranges.len(), a.num("threads", 16) as usize, prop, sys, |i, acc| {
         let (ia, ib) = rs[i];
+        if chained && only.is_none() {
+            // chained: ONE tree instance per range A goes through every ordered pair of operations
+            // (insert | query on A) then (insert | query on B), for all 528 B - separated by clear() only, so that
+            // anything the instance remembers between two consecutive mask computations is exercised
+            let mut t = seg32();
+            let whole = SV { id: 9, exp: 0 };
+            let (va, vb) = (SV { id: 1, exp: 0 }, SV { id: 2, exp: 0 });
+            let sorted = |mut v: Vec<SV>| {
+                v.sort_by_key(|x| x.id);
+                v
+            };
+            for &(c, d) in rs.iter() {
+                let overlap = ia <= d && c <= ib;
+                for kinds in 0..4u32 {
+                    let (k1_ins, k2_ins) = (kinds & 1 == 1, kinds & 2 == 2);
+                    rt::hist_reset();
+                    rt::hist_push(code(1, ia as u64, ib as u64, 0, 0));
+                    SegExpCollection::clear(&mut t);
+                    t.insert_by_range(SegRange { min: 0, max: 31 }, whole);
+                    let case = || vec!["new([0,31]) ... earlier pairs, each followed by clear()".to_string(), "insert([0,31],id=9)".to_string(), if k1_ins { format!("insert([{ia},{ib}],id=1)") } else { format!("query([{ia},{ib}],t=0)") }, if k2_ins { format!("insert([{c},{d}],id=2)") } else { format!("query([{c},{d}],t=0)") }];
+                    if k1_ins {
+                        t.insert_by_range(SegRange { min: ia as i32, max: ib as i32 }, va);
+                    } else {
+                        let got = sorted(full_query(&mut t, ia, ib, 0));
+                        if got != vec![whole] {
+                            acc.viol("query", "chained", format!("query [{ia},{ib}] on a tree holding one whole-domain value yielded {} item(s)", got.len()), case());
+                        }
+                    }
+                    rt::hist_push(code(2, c as u64, d as u64, 0, 0));
+                    let mut want = vec![];
+                    if k1_ins && overlap {
+                        want.push(va);
+                    }
+                    if k2_ins {
+                        t.insert_by_range(SegRange { min: c as i32, max: d as i32 }, vb);
+                        want.push(vb);
+                    }
+                    want.push(whole);
+                    let got = sorted(full_query(&mut t, c, d, 0));
+                    acc.transitions += 5;
+                    acc.evals += 1;
+                    if got != want {
+                        acc.viol("query", "chained", format!("query [{c},{d}] yielded ids {:?}, expected {:?}", got.iter().map(|v| v.id).collect::<Vec<_>>(), want.iter().map(|v| v.id).collect::<Vec<_>>()), case());
+                    }
+                    if place_check {
+                        for (id, a0, b0, present) in [(1u8, ia, ib, k1_ins), (2, c, d, k2_ins), (9, 0, 31, true)] {
+                            let have = places_of(&t, id);
+                            if present && !tiles_exactly(&have, a0, b0) || !present && !have.is_empty() {
+                                acc.viol("insert", "chained-placement", format!("value {id} over [{a0},{b0}] is stored at places {have:?}; maximal tiling {:?}", ref_places(a0, b0)), case());
+                            }
+                        }
+                    }
+                }
+            }
+            note_state(acc, &t);
+        }
         for e in 0..=emax {
             // placement of one insert
             rt::hist_reset();
@@ -646,33 +705,48 @@ fn sweep_layout(a: &Args) -> ! {
                 cases.push((0, lo, len));
             }
         }
+        // lengths next to powers of two (and next to 3 * 2^(k-1)), and the longest lengths an i64 can express
+        let mut lens: Vec<u128> = vec![];
         for k in 1..=62u32 {
-            for d in [-1i128, 0, 1] {
-                let len = (1i128 << k) + d;
-                if len < 1 {
-                    continue;
-                }
-                let len = len as u128;
-                if len <= (1u128 << 32) {
-                    for lo in [i32::MIN as i64, -5, 0] {
-                        if lo as i128 + len as i128 - 1 <= i32::MAX as i128 {
-                            cases.push((0, lo, len));
-                        }
-                    }
-                    if len - 1 <= u32::MAX as u128 {
-                        cases.push((1, 0, len));
-                        if len + 7 - 1 <= u32::MAX as u128 {
-                            cases.push((1, 7, len));
-                        }
-                    }
-                }
-                for lo in [0i64, -3, -(1i64 << 40), i64::MIN / 4] {
-                    if lo as i128 + len as i128 - 1 <= i64::MAX as i128 / 2 {
-                        cases.push((2, lo, len));
+            for d in [-3i128, -2, -1, 0, 1, 2, 3] {
+                for base in [1i128 << k, 3i128 << (k - 1)] {
+                    let len = base + d;
+                    if len >= 1 && len <= i64::MAX as i128 {
+                        lens.push(len as u128);
                     }
                 }
             }
         }
+        for d in [0u128, 1, 2, 3, 16, 17, 1 << 20, (1 << 58) - 1, 1 << 58, 1 << 61] {
+            lens.push(i64::MAX as u128 - d);
+        }
+        lens.sort();
+        lens.dedup();
+        for &len in &lens {
+            if len <= (1u128 << 32) {
+                for lo in [i32::MIN as i64, -5, 0, i32::MAX as i64 - (len as i64 - 1)] {
+                    if lo >= i32::MIN as i64 && lo as i128 + len as i128 - 1 <= i32::MAX as i128 {
+                        cases.push((0, lo, len));
+                    }
+                }
+                if len - 1 <= u32::MAX as u128 {
+                    cases.push((1, 0, len));
+                    if len + 7 - 1 <= u32::MAX as u128 {
+                        cases.push((1, 7, len));
+                    }
+                    cases.push((1, (u32::MAX as u128 - (len - 1)) as i64, len));
+                }
+            }
+            // i64: round and odd offsets, domains starting at the type minimum and ending at the type maximum
+            let top = (i64::MAX as i128 - (len as i128 - 1)) as i64;
+            for lo in [0i64, 1, -3, -(1i64 << 40), i64::MIN / 4, i64::MIN, 12345678901, -(1i64 << 58) + 5, top, top - 1, top / 2 + 1] {
+                if lo as i128 + len as i128 - 1 <= i64::MAX as i128 {
+                    cases.push((2, lo, len));
+                }
+            }
+        }
+        cases.sort();
+        cases.dedup();
     }
     let cs = &cases;
     let acc = parallel(cases.len(), a.num("threads", 16) as usize, prop, sys, |i, acc| {
@@ -983,6 +1057,13 @@ trait BigSub: Sized {
     fn clr(&mut self);
     fn empty(&self) -> bool;
     fn snap(&self) -> i_tree::verif::ArenaSnap<(u32, u32)>;
+    /// neighbour steps (ordered set only): handle of the next / previous entry in key order
+    fn after(&self, _h: u32) -> Option<u32> {
+        None
+    }
+    fn before(&self, _h: u32) -> Option<u32> {
+        None
+    }
 }
 impl BigSub for i_tree::map::tree::MapTree<u32, u32> {
     const NAME: &'static str = "MapTree<u32,u32>";
@@ -1042,6 +1123,12 @@ impl BigSub for i_tree::set::tree::SetTree<u32, u32> {
     fn empty(&self) -> bool {
         i_tree::set::sort::SetCollection::is_empty(self)
     }
+    fn after(&self, h: u32) -> Option<u32> {
+        Some(i_tree::set::sort::SetCollection::index_after(self, h))
+    }
+    fn before(&self, h: u32) -> Option<u32> {
+        Some(i_tree::set::sort::SetCollection::index_before(self, h))
+    }
     fn snap(&self) -> i_tree::verif::ArenaSnap<(u32, u32)> {
         let s = self.verif_snapshot();
         i_tree::verif::ArenaSnap {
@@ -1093,6 +1180,31 @@ fn big_checkpoint<S: BigSub>(t: &S, model: &BTreeMap<u32, u32>, hint: usize, pea
     for k in model.keys().step_by(37) {
         if !model.contains_key(&(k + 1)) && t.get(k + 1).is_some() {
             return Err(("get_value".into(), format!("{what}: get_value({}) of an absent key returned a value", k + 1)));
+        }
+    }
+    // neighbour steps: walking from the smallest key visits every key in order and ends with EMPTY_REF, and back
+    if let (Some((&lo, _)), Some((&hi, _))) = (model.first_key_value(), model.last_key_value()) {
+        if t.after(t.fil(lo)).is_some() {
+            let mut h = t.fil(lo);
+            for (k, v) in model {
+                if h == i_tree::EMPTY_REF || t.at(h) != *v {
+                    return Err(("index_after".into(), format!("{what}: the walk by index_after from the smallest key does not arrive at key {k}")));
+                }
+                h = t.after(h).unwrap();
+            }
+            if h != i_tree::EMPTY_REF {
+                return Err(("index_after".into(), format!("{what}: index_after(handle of the largest key {hi}) = {h}, not EMPTY_REF")));
+            }
+            let mut h = t.fil(hi);
+            for (k, v) in model.iter().rev() {
+                if h == i_tree::EMPTY_REF || t.at(h) != *v {
+                    return Err(("index_before".into(), format!("{what}: the walk by index_before from the largest key does not arrive at key {k}")));
+                }
+                h = t.before(h).unwrap();
+            }
+            if h != i_tree::EMPTY_REF {
+                return Err(("index_before".into(), format!("{what}: index_before(handle of the smallest key {lo}) = {h}, not EMPTY_REF")));
+            }
         }
     }
     let s = t.snap();
@@ -1199,11 +1311,28 @@ fn sweep_bigtree(a: &Args) -> ! {
         cases.push((p[0] as usize, p[1], p[2], p[3]));
     } else {
         let sizes: Vec<u32> = a.get("sizes").unwrap_or("500,1023,1024,1025,3000").split(',').map(|x| x.parse().unwrap()).collect();
-        for hint in [0usize, 1, 8, 9, 1025] {
+        if a.num("hints", 0) > 0 {
+            // every capacity hint 0..=H: the growth arithmetic depends on nothing else
+            for hint in 0..=a.num("hints", 0) as usize {
+                cases.push((hint, 2 * hint as u32 + 50, 2, 50));
+                cases.push((hint, hint as u32 + 3, 0, 100));
+            }
+        } else if a.num("few", 0) == 1 {
+            // the tallest trees (monotone fills of millions of entries): four histories per size only
             for &n in &sizes {
-                for order in 0..3 {
-                    for keep in [0u32, 1, 10, 50, 100] {
-                        cases.push((hint, n, order, keep));
+                for order in 0..2 {
+                    for keep in [0u32, 50] {
+                        cases.push((8, n, order, keep));
+                    }
+                }
+            }
+        } else {
+            for hint in [0usize, 1, 8, 9, 1025] {
+                for &n in &sizes {
+                    for order in 0..3 {
+                        for keep in [0u32, 1, 10, 50, 100] {
+                            cases.push((hint, n, order, keep));
+                        }
                     }
                 }
             }
@@ -1367,6 +1496,141 @@ fn bigk_history(hint: usize, n: u32, order: u32, pat: u32, list: bool, acc: &mut
     }
 }
 
+/// bigk "full arena": everything is inserted at time 0 (nothing is purged on the way) until the arena is exactly
+/// full at a size >= `target`; a pattern of the entries is expired at time 10 and has never been visited; then ONE
+/// insert at time 10 at a chosen position, followed by every lookup, the structure checks and the export.
+fn bigk_full_history(hint: usize, target: usize, order: u32, deadpat: u32, pos: u32, list: bool, acc: &mut Acc, case_no: u64) {
+    use i_tree::key::exp::KeyExpCollection as KC;
+    let subj = if list { "KeyExpList<BKey,u32,u32>" } else { "KeyExpTree<BKey,u32,u32>" };
+    let case = vec![
+        format!("{subj}::new({hint})"),
+        format!("insert keys (order #{order}) at time 0 until the arena is exactly full with >= {target} slots; expirations 5 for the keys of dead-pattern #{deadpat}, 1000 otherwise; at time 10 one insert at position #{pos}; then every lookup at time 10, structure, export"),
+        format!("--only {hint},{target},{order},{deadpat},{pos},{}", list as u8),
+    ];
+    rt::hist_reset();
+    rt::hist_push(code(7, case_no, 1, 0, 0));
+    let r = guard(|| -> Result<(), (String, String)> {
+        let mut tree: Option<KeyExpTree<BKey, u32, u32>> = if list { None } else { Some(KeyExpTree::new(hint)) };
+        let mut lst: Option<KeyExpList<BKey, u32, u32>> = if list { Some(KeyExpList::new(hint)) } else { None };
+        let mut model: BTreeMap<u32, (u32, u32)> = BTreeMap::new();
+        let dead = |i: u32| match deadpat {
+            0 => i % 4 == 1 || i % 4 == 2,
+            1 => i % 3 == 0,
+            2 => (2..=4).contains(&(i % 7)),
+            3 => i % 10 != 0,
+            _ => i % 16 == 5 || i % 16 == 6,
+        };
+        // the list has no arena: use the same number of entries as the tree variant would hold
+        let cap_n = 2 * target as u32 + 64;
+        let perm = big_perm(cap_n, order);
+        let mut reference_tree: KeyExpTree<BKey, u32, u32> = KeyExpTree::new(hint);
+        let mut count = 0u32;
+        for &i in perm.iter() {
+            let k = BKey { id: 4 * i + 2, exp: if dead(i) { 5 } else { 1000 } };
+            let v = k.id + 7;
+            KC::insert(&mut reference_tree, k, v, 0);
+            if let Some(tr) = tree.as_mut() {
+                KC::insert(tr, k, v, 0);
+            }
+            if let Some(l) = lst.as_mut() {
+                KC::insert(l, k, v, 0);
+            }
+            model.insert(k.id, (k.exp, v));
+            count += 1;
+            if count as usize + 2 >= target {
+                let sn = reference_tree.verif_snapshot();
+                if sn.unused.is_empty() && sn.slots.len() >= target {
+                    break;
+                }
+            }
+        }
+        drop(reference_tree);
+        let t = 10u32;
+        let keys: Vec<u32> = model.keys().copied().collect();
+        let newk = match pos {
+            0 => 0,
+            1 => keys[keys.len() - 1] + 1,
+            2 => keys[keys.len() / 2] + 1,
+            3 => keys[keys.len() / 3] - 1,
+            _ => keys[(keys.len() * 4) / 5] + 1,
+        };
+        let k = BKey { id: newk, exp: 1000 };
+        if let Some(tr) = tree.as_mut() {
+            KC::insert(tr, k, newk + 7, t);
+        }
+        if let Some(l) = lst.as_mut() {
+            KC::insert(l, k, newk + 7, t);
+        }
+        model.insert(newk, (1000, newk + 7));
+        let structure = |tree: &Option<KeyExpTree<BKey, u32, u32>>, what: &str| -> Result<(), (String, String)> {
+            if let Some(tr) = tree {
+                let sn = tr.verif_snapshot();
+                let a = crate::inv::analyze(&sn, |p| p.0.id);
+                if let Some(e) = a.rb_errors.first() {
+                    return Err(("structure".into(), format!("{what}: {e}")));
+                }
+                if let Some(e) = a.arena_errors.first() {
+                    return Err(("arena".into(), format!("{what}: {e}")));
+                }
+                if a.inorder.len() + sn.unused.len() + 1 != sn.slots.len() {
+                    return Err(("arena".into(), format!("{what}: {} linked + {} free + sentinel != {} slots", a.inorder.len(), sn.unused.len(), sn.slots.len())));
+                }
+                let bound = 8 * (count as usize + 2) + hint.max(8);
+                if sn.slots.len() > bound {
+                    return Err(("growth".into(), format!("{what}: buffer holds {} slots for a peak population of {} (bound {bound})", sn.slots.len(), count + 1)));
+                }
+            }
+            Ok(())
+        };
+        structure(&tree, "after the insert into the full arena")?;
+        let maxk = *model.keys().next_back().unwrap();
+        for id in 0..=maxk + 1 {
+            let want = model.get(&id).filter(|(e, _)| *e > t).map(|(_, v)| *v);
+            let probe = BKey { id, exp: 0 };
+            let got = match (tree.as_mut(), lst.as_mut()) {
+                (Some(tr), _) => KC::get_value(tr, t, probe),
+                (_, Some(l)) => KC::get_value(l, t, probe),
+                _ => None,
+            };
+            if got != want {
+                return Err(("get_value".into(), format!("get_value(time {t}, key {id}) = {got:?}, reference says {want:?}")));
+            }
+            let pred = model.range(..=id).rev().find(|(_, (e, _))| *e > t).map(|(_, (_, v))| *v).unwrap_or(0);
+            let gotp = match (tree.as_mut(), lst.as_mut()) {
+                (Some(tr), _) => KC::first_less_or_equal(tr, t, 0, probe),
+                (_, Some(l)) => KC::first_less_or_equal(l, t, 0, probe),
+                _ => 0,
+            };
+            if gotp != pred {
+                return Err(("first_less_or_equal".into(), format!("first_less_or_equal(time {t}, probe {id}) = {gotp}, reference says {pred}")));
+            }
+        }
+        structure(&tree, "after the lookups")?;
+        let want: Vec<u32> = model.values().filter(|(e, _)| *e > t).map(|(_, v)| *v).collect();
+        let got = match (tree.take(), lst.take()) {
+            (Some(tr), _) => tr.into_ordered_vec(t),
+            (_, Some(l)) => l.into_ordered_vec(t),
+            _ => vec![],
+        };
+        if got != want {
+            return Err(("export".into(), format!("into_ordered_vec({t}) returned {} values, reference says {}", got.len(), want.len())));
+        }
+        Ok(())
+    });
+    acc.transitions += 4 * target as u64;
+    acc.evals += 4 * target as u64;
+    acc.nontrivial += 1;
+    acc.states.insert(fingerprint(format!("kf:{hint}:{target}:{order}:{deadpat}:{pos}:{list}").as_bytes()));
+    match r {
+        Ok(Ok(())) => {}
+        Ok(Err((tag, msg))) => acc.viol("history", &tag, msg, case.clone()),
+        Err(_) => acc.viol("history", "panic", format!("the subject panicked: {}", rt::last_panic()), case.clone()),
+    }
+    if acc.samples.is_empty() {
+        acc.samples.push(case);
+    }
+}
+
 fn sweep_bigk(a: &Args) -> ! {
     let t0 = Instant::now();
     let prop = a.prop();
@@ -1379,7 +1643,17 @@ fn sweep_bigk(a: &Args) -> ! {
         cases.push((p[0] as usize, p[1], p[2], p[3]));
     } else {
         let sizes: Vec<u32> = a.get("sizes").unwrap_or("127,128,255,256,257,600,1500,4000").split(',').map(|x| x.parse().unwrap()).collect();
+        for hint in 0..=a.num("hints", 0) as usize {
+            if a.num("hints", 0) == 0 {
+                break;
+            }
+            cases.push((hint, 2 * hint as u32 + 50, 2, hint as u32 % 6));
+            cases.push((hint, hint as u32 + 3, hint as u32 % 2, (hint as u32 + 3) % 6));
+        }
         for hint in [0usize, 8, 9, 128, 256, 1000] {
+            if a.num("hints", 0) > 0 {
+                break;
+            }
             for &n in &sizes {
                 for order in 0..3 {
                     for pat in 0..6 {
@@ -1389,6 +1663,38 @@ fn sweep_bigk(a: &Args) -> ! {
             }
         }
     }
+    if a.num("full", 0) == 1 {
+        // full-arena family: (hint, target, order, deadpat, pos)
+        let mut fc: Vec<(usize, usize, u32, u32, u32)> = vec![];
+        if let Some(o) = a.get("only") {
+            let p: Vec<u32> = o.split(',').map(|x| x.parse().unwrap()).collect();
+            fc.push((p[0] as usize, p[1] as usize, p[2], p[3], p[4]));
+        } else {
+            let tmax = a.num("target-max", 4096) as usize;
+            for hint in [8usize, 0, 9, 100] {
+                for target in [16usize, 64, 128, 256, 512, 1024, 2048, 4096, 8192, 16384] {
+                    if target > tmax {
+                        continue;
+                    }
+                    for order in 0..3 {
+                        for deadpat in 0..5 {
+                            for pos in 0..5 {
+                                fc.push((hint, target, order, deadpat, pos));
+                            }
+                        }
+                    }
+                }
+            }
+        }
+        let fcs = &fc;
+        let acc = parallel(fc.len(), a.num("threads", 16) as usize, prop, sys, |i, acc| {
+            let (hint, target, order, deadpat, pos) = fcs[i];
+            bigk_full_history(hint, target, order, deadpat, pos, list, acc, i as u64);
+        });
+        let mut acc = acc;
+        acc.count("histories", fc.len() as u64);
+        finish(acc.report(t0, a.get("only").is_none(), ""), a)
+    }
     let cs = &cases;
     let acc = parallel(cases.len(), a.num("threads", 16) as usize, prop, sys, |i, acc| {
         let (hint, n, order, pat) = cs[i];
@@ -1396,6 +1702,310 @@ fn sweep_bigk(a: &Args) -> ! {
     });
     let mut acc = acc;
     acc.count("histories", cases.len() as u64);
+    finish(acc.report(t0, a.get("only").is_none(), ""), a)
+}
+
+// ---------------------------------------------------------------------------
+// longrun: ONE instance driven through hundreds of thousands of operations (well past 2^16 / 2^17 inserts and
+// queries), every answer compared with the reference.  Deterministic and finite; it covers what no short history can:
+// behaviour keyed to the age of an instance (operation counters, periodic maintenance, amortised sweeps).
+// ---------------------------------------------------------------------------
+
+#[derive(Clone, Copy, Debug, PartialEq, Eq)]
+struct LV {
+    id: u32,
+    exp: u32,
+}
+impl i_tree::ExpiredVal<u32> for LV {
+    fn expiration(&self) -> u32 {
+        self.exp
+    }
+}
+
+#[allow(clippy::too_many_arguments)]
+fn longrun_seg<R: Coord>(lo: i64, hi: i64, period: u32, clear_every: u32, phase: u32, nq: u32, acc: &mut Acc, case_no: u64)
+where
+    i64: From<R>,
+{
+    let case = vec![
+        format!("SegExpTree::<{},u32,LV>::new([{lo},{hi}])", R::NAME),
+        format!("{nq} rounds on this one instance: insert a value (expiration == time on even rounds, time+1..3 on odd ones), then one query; the clock advances every {period} rounds; clear every {clear_every} rounds (0 = never); phase {phase}"),
+        format!("--only seg,{},{lo},{hi},{period},{clear_every},{phase}", R::NAME),
+    ];
+    rt::hist_reset();
+    rt::hist_push(code(8, case_no, 0, 0, 0));
+    let first = rt::my_history().first().copied();
+    let beat = || {
+        rt::hist_reset();
+        if let Some(c) = first {
+            rt::hist_push(c);
+        }
+    };
+    let (s, ranges) = crate::ssys::alphabet(lo, hi);
+    let nr = ranges.len();
+    let bk = |r: (i64, i64)| (ref_bucket(lo, s, r.0), ref_bucket(lo, s, r.1));
+    let r = guard(|| -> Result<(), (String, String)> {
+        let Some(mut tree) = SegExpTree::<R, u32, LV>::new(SegRange { min: R::from_i64(lo), max: R::from_i64(hi) }) else {
+            return Err(("refused".into(), "the constructor refused the domain".into()));
+        };
+        let mut model: Vec<(u32, u32, u32, u32)> = vec![]; // id, exp, first bucket, last bucket
+        for i in 0..nq {
+            let t = i / period;
+            let exp = if (i + phase) % 2 == 0 { t } else { t + 1 + i % 3 };
+            let ri = (i as usize * 5 + phase as usize) % nr;
+            let rr = ranges[ri];
+            tree.insert_by_range(SegRange { min: R::from_i64(rr.0), max: R::from_i64(rr.1) }, LV { id: i, exp });
+            let (b0, b1) = bk(rr);
+            model.push((i, exp, b0, b1));
+            if i % period == 0 {
+                model.retain(|m| m.1 >= t);
+            }
+            let qi = (i as usize * 7 + 3 + phase as usize) % nr;
+            let qr = ranges[qi];
+            let (q0, q1) = bk(qr);
+            let mut want: Vec<u32> = model.iter().filter(|m| m.1 >= t && m.2 <= q1 && q0 <= m.3).map(|m| m.0).collect();
+            want.sort();
+            let all = i % 13 != 5;
+            let q = SegRange { min: R::from_i64(qr.0), max: R::from_i64(qr.1) };
+            let mut got: Vec<u32> = if all { tree.iter_by_range(q, t).map(|v| v.id).collect() } else { tree.iter_by_range(q, t).take(2).map(|v| v.id).collect() };
+            got.sort();
+            if all {
+                if got != want {
+                    let missing: Vec<u32> = want.iter().filter(|x| !got.contains(x)).take(4).copied().collect();
+                    let extra: Vec<u32> = got.iter().filter(|x| !want.contains(x)).take(4).copied().collect();
+                    return Err(("query".into(), format!("round {i} (query #{} of this instance): query [{},{}] at time {t} returned {} values, reference says {}; missing ids {missing:?}, unexpected ids {extra:?}", i + 1, qr.0, qr.1, got.len(), want.len())));
+                }
+            } else {
+                let dup = got.windows(2).any(|w| w[0] == w[1]);
+                if dup || got.iter().any(|x| !want.contains(x)) || got.len() != want.len().min(2) {
+                    return Err(("query-partial".into(), format!("round {i}: the first two results of query [{},{}] at time {t} are {got:?}; reference set has {} values", qr.0, qr.1, want.len())));
+                }
+            }
+            if all && qi == 0 && i % 16 < 9 {
+                // after a fully consumed whole-domain query only copies of unexpired values are stored
+                let stale = tree.verif_chunks().iter().flatten().filter(|(v, _)| v.exp < t).count();
+                if stale > 0 {
+                    return Err(("stale".into(), format!("round {i}: {stale} copies of values with expiration below {t} are still stored after a whole-domain query at time {t}")));
+                }
+            }
+            if clear_every > 0 && i % clear_every == clear_every - 1 {
+                SegExpCollection::clear(&mut tree);
+                model.clear();
+                if tree.verif_chunks().iter().any(|c| !c.is_empty()) {
+                    return Err(("clear".into(), format!("round {i}: clear left stored copies behind")));
+                }
+            }
+            if i % 2048 == 0 {
+                beat();
+            }
+        }
+        Ok(())
+    });
+    acc.transitions += 2 * nq as u64;
+    acc.evals += nq as u64;
+    acc.nontrivial += 1;
+    acc.states.insert(fingerprint(format!("ls:{}:{lo}:{hi}:{period}:{clear_every}:{phase}", R::NAME).as_bytes()));
+    match r {
+        Ok(Ok(())) => {}
+        Ok(Err((tag, msg))) => acc.viol("longrun", &tag, msg, case.clone()),
+        Err(_) => acc.viol("longrun", "panic", format!("the subject panicked: {}", rt::last_panic()), case.clone()),
+    }
+    if acc.samples.is_empty() {
+        acc.samples.push(case);
+    }
+}
+
+#[allow(clippy::too_many_arguments)]
+fn longrun_k(list: bool, hint: usize, nkeys: u32, period: u32, clear_every: u32, phase: u32, nq: u32, acc: &mut Acc, case_no: u64) {
+    use i_tree::key::exp::KeyExpCollection as KC;
+    let subj = if list { "KeyExpList<BKey,u32,u32>" } else { "KeyExpTree<BKey,u32,u32>" };
+    let case = vec![
+        format!("{subj}::new({hint})"),
+        format!("{nq} rounds on this one instance over {nkeys} keys: (re-)insert the round's key if it is not live (expiration time+1..3), then one lookup of each kind in rotation; the clock advances every {period} rounds; clear every {clear_every} rounds (0 = never); phase {phase}"),
+        format!("--only k,{},{hint},{nkeys},{period},{clear_every},{phase}", list as u8),
+    ];
+    rt::hist_reset();
+    rt::hist_push(code(9, case_no, 0, 0, 0));
+    let first = rt::my_history().first().copied();
+    let beat = || {
+        rt::hist_reset();
+        if let Some(c) = first {
+            rt::hist_push(c);
+        }
+    };
+    let r = guard(|| -> Result<(), (String, String)> {
+        let mut tree: Option<KeyExpTree<BKey, u32, u32>> = if list { None } else { Some(KeyExpTree::new(hint)) };
+        let mut lst: Option<KeyExpList<BKey, u32, u32>> = if list { Some(KeyExpList::new(hint)) } else { None };
+        let mut model: BTreeMap<u32, (u32, u32)> = BTreeMap::new(); // key -> (exp, val)
+        let mut peak = 0usize;
+        let stride = (0..).map(|x| 7 + 2 * x).find(|m| gcd(*m, nkeys) == 1).unwrap();
+        for i in 0..nq {
+            let t = i / period;
+            let id = 2 * ((i.wrapping_mul(stride) + phase) % nkeys) + 1;
+            let live = model.get(&id).map(|(e, _)| *e > t).unwrap_or(false);
+            if !live {
+                let k = BKey { id, exp: t + 1 + (i + phase) % 3 };
+                let v = id + 1000 * (i % 1000) + 1;
+                if let Some(tr) = tree.as_mut() {
+                    KC::insert(tr, k, v, t);
+                }
+                if let Some(l) = lst.as_mut() {
+                    KC::insert(l, k, v, t);
+                }
+                model.insert(id, (k.exp, v));
+            }
+            if i % period == 0 {
+                model.retain(|_, (e, _)| *e > t);
+            }
+            peak = peak.max(model.len());
+            let p = (i.wrapping_mul(5) + 1 + phase) % (2 * nkeys + 2);
+            let probe = BKey { id: p, exp: 0 };
+            let le = model.range(..=p).rev().find(|(_, (e, _))| *e > t).map(|(_, (_, v))| *v).unwrap_or(0);
+            let lt = model.range(..p).rev().find(|(_, (e, _))| *e > t).map(|(_, (_, v))| *v).unwrap_or(0);
+            let eq = model.get(&p).filter(|(e, _)| *e > t).map(|(_, v)| *v);
+            let (name, got, want): (&str, Option<u32>, Option<u32>) = match (i / 3 + phase) % 4 {
+                0 => ("get_value", match (tree.as_mut(), lst.as_mut()) {
+                    (Some(tr), _) => KC::get_value(tr, t, probe),
+                    (_, Some(l)) => KC::get_value(l, t, probe),
+                    _ => None,
+                }, eq),
+                1 => ("first_less", Some(match (tree.as_mut(), lst.as_mut()) {
+                    (Some(tr), _) => KC::first_less(tr, t, 0, probe),
+                    (_, Some(l)) => KC::first_less(l, t, 0, probe),
+                    _ => 0,
+                }), Some(lt)),
+                2 => ("first_less_or_equal", Some(match (tree.as_mut(), lst.as_mut()) {
+                    (Some(tr), _) => KC::first_less_or_equal(tr, t, 0, probe),
+                    (_, Some(l)) => KC::first_less_or_equal(l, t, 0, probe),
+                    _ => 0,
+                }), Some(le)),
+                _ => ("first_less_or_equal_by", Some(match (tree.as_mut(), lst.as_mut()) {
+                    (Some(tr), _) => KC::first_less_or_equal_by(tr, t, 0, |k: BKey| k.id.cmp(&p)),
+                    (_, Some(l)) => KC::first_less_or_equal_by(l, t, 0, |k: BKey| k.id.cmp(&p)),
+                    _ => 0,
+                }), Some(le)),
+            };
+            if got != want {
+                return Err((name.into(), format!("round {i}: {name}(time {t}, probe {p}) = {got:?}, reference says {want:?} (0 = default)")));
+            }
+            if i % 4099 == 0 {
+                beat();
+                if let Some(tr) = tree.as_ref() {
+                    let sn = tr.verif_snapshot();
+                    let a = crate::inv::analyze(&sn, |p| p.0.id);
+                    if let Some(e) = a.rb_errors.first() {
+                        return Err(("structure".into(), format!("round {i}: {e}")));
+                    }
+                    if let Some(e) = a.arena_errors.first() {
+                        return Err(("arena".into(), format!("round {i}: {e}")));
+                    }
+                    if a.inorder.len() + sn.unused.len() + 1 != sn.slots.len() {
+                        return Err(("arena".into(), format!("round {i}: {} linked + {} free + sentinel != {} slots", a.inorder.len(), sn.unused.len(), sn.slots.len())));
+                    }
+                    let bound = 8 * (nkeys as usize + 1) + hint.max(8);
+                    if sn.slots.len() > bound {
+                        return Err(("growth".into(), format!("round {i}: buffer holds {} slots; at most {nkeys} entries were ever stored at once (bound {bound})", sn.slots.len())));
+                    }
+                }
+            }
+            if clear_every > 0 && i % clear_every == clear_every - 1 {
+                if let Some(tr) = tree.as_mut() {
+                    KC::clear(tr);
+                }
+                if let Some(l) = lst.as_mut() {
+                    KC::clear(l);
+                }
+                model.clear();
+            }
+        }
+        // export at the end of the long life
+        let t = nq / period;
+        let want: Vec<u32> = model.values().filter(|(e, _)| *e > t).map(|(_, v)| *v).collect();
+        let stored = tree.as_ref().map(|tr| crate::inv::analyze(&tr.verif_snapshot(), |p| p.0.id).inorder.len()).or(lst.as_ref().map(|l| l.verif_snapshot().0.len())).unwrap_or(0);
+        let got = match (tree.take(), lst.take()) {
+            (Some(tr), _) => tr.into_ordered_vec(t),
+            (_, Some(l)) => l.into_ordered_vec(t),
+            _ => vec![],
+        };
+        if got != want {
+            return Err(("export".into(), format!("into_ordered_vec({t}) after {nq} rounds returned {} values, reference says {}", got.len(), want.len())));
+        }
+        if got.capacity() > 8 * stored + 64 {
+            return Err(("export-capacity".into(), format!("into_ordered_vec returned capacity {} for {stored} stored entries", got.capacity())));
+        }
+        Ok(())
+    });
+    acc.transitions += 2 * nq as u64;
+    acc.evals += nq as u64;
+    acc.nontrivial += 1;
+    acc.states.insert(fingerprint(format!("lk:{list}:{hint}:{nkeys}:{period}:{clear_every}:{phase}").as_bytes()));
+    match r {
+        Ok(Ok(())) => {}
+        Ok(Err((tag, msg))) => acc.viol("longrun", &tag, msg, case.clone()),
+        Err(_) => acc.viol("longrun", "panic", format!("the subject panicked: {}", rt::last_panic()), case.clone()),
+    }
+    if acc.samples.is_empty() {
+        acc.samples.push(case);
+    }
+}
+
+fn sweep_longrun(a: &Args) -> ! {
+    let t0 = Instant::now();
+    let prop = a.prop();
+    let which = a.get("sys").unwrap_or("seg").to_string();
+    let sys = match which.as_str() {
+        "seg" => "SegExpTree<_,u32,LV>",
+        "klist" => "KeyExpList<BKey,u32,u32>",
+        _ => "KeyExpTree<BKey,u32,u32>",
+    };
+    register(a, sys);
+    let nq = a.num("rounds", 140000) as u32;
+    // seg: (type, lo, hi, period, clear_every, phase)   k: (hint, nkeys, period, clear_every, phase)
+    let mut seg_cases: Vec<(u8, i64, i64, u32, u32, u32)> = vec![];
+    let mut k_cases: Vec<(usize, u32, u32, u32, u32)> = vec![];
+    if let Some(o) = a.get("only") {
+        let p: Vec<&str> = o.split(',').collect();
+        if p[0] == "seg" {
+            seg_cases.push(((p[1] == "i64") as u8, p[2].parse().unwrap(), p[3].parse().unwrap(), p[4].parse().unwrap(), p[5].parse().unwrap(), p[6].parse().unwrap()));
+        } else {
+            k_cases.push((p[2].parse().unwrap(), p[3].parse().unwrap(), p[4].parse().unwrap(), p[5].parse().unwrap(), p[6].parse().unwrap()));
+        }
+    } else if which == "seg" {
+        for (ty, lo, hi) in [(0u8, 0i64, 31i64), (0, -7, 92), (0, 0, 128), (1, -(1i64 << 40), (1i64 << 40) + 5)] {
+            for (period, clear_every) in [(64u32, 0u32), (200, 0), (64, 30011), (200, 50021)] {
+                for phase in 0..3 {
+                    seg_cases.push((ty, lo, hi, period, clear_every, phase));
+                }
+            }
+        }
+    } else {
+        for (hint, nkeys) in [(8usize, 48u32), (0, 31), (9, 200), (256, 255)] {
+            for (period, clear_every) in [(40u32, 0u32), (700, 0), (40, 30011), (300, 50021)] {
+                for phase in 0..3 {
+                    k_cases.push((hint, nkeys, period, clear_every, phase));
+                }
+            }
+        }
+    }
+    let list = which == "klist";
+    let n = seg_cases.len() + k_cases.len();
+    let (sc, kc) = (&seg_cases, &k_cases);
+    let acc = parallel(n, a.num("threads", 16) as usize, prop, sys, |i, acc| {
+        if i < sc.len() {
+            let (ty, lo, hi, period, ce, ph) = sc[i];
+            if ty == 0 {
+                longrun_seg::<i32>(lo, hi, period, ce, ph, nq, acc, i as u64);
+            } else {
+                longrun_seg::<i64>(lo, hi, period, ce, ph, nq, acc, i as u64);
+            }
+        } else {
+            let (hint, nkeys, period, ce, ph) = kc[i - sc.len()];
+            longrun_k(list, hint, nkeys, period, ce, ph, nq, acc, i as u64);
+        }
+    });
+    let mut acc = acc;
+    acc.count("histories", n as u64);
+    acc.count("rounds_per_history", nq as u64);
     finish(acc.report(t0, a.get("only").is_none(), ""), a)
 }
 
@@ -1409,6 +2019,7 @@ pub fn dispatch(a: &Args) -> ! {
         "niche" => sweep_niche(a),
         "bigtree" => sweep_bigtree(a),
         "bigk" => sweep_bigk(a),
+        "longrun" => sweep_longrun(a),
         _ => die("unknown --kind"),
     }
 }
